@@ -4,12 +4,13 @@
   Models: PyctrModel/Fmt/Codecs.lean (SMDH titles / flags / region lockout / icon, seed database, config savegame),
   PyctrModel/Fmt/Lzss.lean (backward LZSS decoder), PyctrModel/Save/Desc.lean (DIFI / IVFC / DPFS), PyctrModel/Fmt/Nand.lean
   (NCSD header), PyctrModel/Fmt/Tmd.lean (TitleVersion / ContentTypeFlags words).
-  Config savegame and LZSS are decided by the correspondence check with independent builders / a reference compressor;
-  their round trips are not theorems yet (see DESIGN.md §C20).
+  The LZSS round trip is decided by the correspondence check with a reference compressor in the harness (pyctr has no
+  compressor to model); the decoder's termination and bounds are theorems of C19.
 -/
 import Proofs.CodecProofs
 import Proofs.TmdBits
 import Proofs.NandProofs
+import Proofs.ConfigProofs
 namespace Pyctr.C20
 open Pyctr
 
@@ -68,6 +69,48 @@ theorem C20_ivfc (x : Save.Ivfc) (b : Bytes) (h : x.toBytes = some b)
 theorem C20_dpfs (x : Save.Dpfs) (b : Bytes) (h : x.toBytes = some b)
     (hs : x.lv1.sane = true ∧ x.lv2.sane = true ∧ x.lv3.sane = true) : Save.Dpfs.fromBytes b = .ok x :=
   Save.dpfs_roundtrip x b h hs
+
+/-- config savegame image: value → bytes → value for every block list the strict `set_block` can build (known ids with the
+    table's flags and sizes, no id twice); `to_bytes` succeeding is the only other premise (it fails when the data do not fit) -/
+theorem C20_cfg_image (bl : List ConfigSave.Block) (hwf : ConfigSave.WF bl) (img : Bytes) (hb : ConfigSave.toBytes bl = .ok img) :
+    ConfigSave.load img = .ok bl := ConfigSave.cfg_roundtrip bl hwf img hb
+
+/-- ... and bytes → value → bytes for a canonical image (one that `to_bytes` produces) -/
+theorem C20_cfg_canonical (bl : List ConfigSave.Block) (hwf : ConfigSave.WF bl) (img : Bytes) (hb : ConfigSave.toBytes bl = .ok img) :
+    ∃ bl', ConfigSave.load img = .ok bl' ∧ ConfigSave.toBytes bl' = .ok img :=
+  ⟨bl, ConfigSave.cfg_roundtrip bl hwf img hb, hb⟩
+
+example : ConfigSave.WF [⟨0x000A0000, 0xE, zeros 28⟩, ⟨0x000F0004, 0xC, [2, 0, 0, 0]⟩, ⟨0x00030001, 0xE, zeros 8⟩] :=
+  ⟨by decide, by decide, by decide⟩
+
+/-- config blocks: what `set_block` stores is what `get_block` returns, and no other block changes -/
+theorem C20_cfg_set_get (blocks blocks' : List ConfigSave.Block) (id : Nat) (data : Bytes) (flags : Option Nat)
+    (h : ConfigSave.setBlock blocks id data flags = .ok blocks') :
+    (∃ fl, ConfigSave.getBlock blocks' id = .ok ⟨id, fl, data⟩) ∧
+      ∀ j, j ≠ id → ConfigSave.getBlock blocks' j = ConfigSave.getBlock blocks j :=
+  ⟨ConfigSave.setBlock_get _ _ _ _ _ h, fun j hj => ConfigSave.setBlock_other _ _ _ j _ _ h hj⟩
+
+/-- a block added without explicit flags gets the flags of the strict table (so that the image loads again) -/
+theorem C20_cfg_default_flags (blocks blocks' : List ConfigSave.Block) (id : Nat) (data : Bytes)
+    (h : ConfigSave.setBlock blocks id data none = .ok blocks') (hnew : blocks.find? (·.id == id) = none) :
+    ∃ efl, ConfigSave.knownOf id = some (efl, data.length) ∧ ConfigSave.getBlock blocks' id = .ok ⟨id, efl, data⟩ :=
+  ConfigSave.setBlock_default blocks blocks' id data h hnew
+
+/-- typed accessors: user name (well-formed UTF-16, no NUL, at most 14 code units), RTC offset (< 2^64), system model -/
+theorem C20_cfg_username (blocks blocks' : List ConfigSave.Block) (v : Smdh.U16s) (hfit : 2 * v.length ≤ 28)
+    (hu : ∀ x, x ∈ v → x < 65536) (hnz : ∀ x, x ∈ v → x ≠ 0) (h : ConfigSave.usernameSet blocks v = .ok blocks') :
+    ConfigSave.usernameGet blocks' = .ok v := ConfigSave.username_roundtrip blocks blocks' v hfit hu hnz h
+
+theorem C20_cfg_time (blocks blocks' : List ConfigSave.Block) (v : Nat) (hv : v < 2 ^ 64)
+    (h : ConfigSave.timeSet blocks (v : Int) = .ok blocks') : ConfigSave.timeGet blocks' = .ok v :=
+  ConfigSave.time_roundtrip blocks blocks' v hv h
+
+theorem C20_cfg_model (blocks blocks' : List ConfigSave.Block) (m : Nat) (hm : m ≤ 5)
+    (h : ConfigSave.modelSet blocks (m : Int) = .ok blocks') :
+    ConfigSave.modelGet blocks' = .ok m ∧
+    ∀ b, ConfigSave.getBlock blocks 0x000F0004 = .ok b →
+      ∃ fl, ConfigSave.getBlock blocks' 0x000F0004 = .ok ⟨0x000F0004, fl, UInt8.ofNat m :: b.data.drop 1⟩ :=
+  ConfigSave.model_roundtrip blocks blocks' m hm h
 
 /-- NAND NCSD header: image → value → image (unused slots zero) -/
 theorem C20_ncsd_image (b : Bytes) (hd : Nand.Header) (h : Nand.Header.fromBytes b = .ok hd)
